@@ -161,6 +161,11 @@ func init() {
 		e.kv["__alloc_limit"] = a[0]
 		return nil
 	})
+	v("AllocCeiling", func(e *Engine, fr *frame, fn *ssa.Function, a []Value) Value {
+		e.kv["__alloc_ceiling"] = a[0]
+		e.covers["assert:engine: one allocation larger than the harness's ceiling (memory sized by an announced length, not by what arrived)"] = true
+		return nil
+	})
 	v("AllocCut", func(e *Engine, fr *frame, fn *ssa.Function, a []Value) Value {
 		e.kv["__alloc_cut"] = a[0]
 		return nil
